@@ -22,6 +22,7 @@ import PV.Model.Format
 import PV.Model.Cache
 import PV.Model.WrapperTrace
 import PV.Driver.QueueAccept
+import PV.Model.Compress
 import PV.Spec.Flatten
 import PV.Gen.Flatten
 import PV.Spec.FirstOcc
@@ -495,6 +496,52 @@ def wrapperU (op : String) (args : List String) : String :=
     | none => "bad-op"
   | _, _ => "bad-op"
 
+def parseWEv (w : String) : Option PV.Compress.WEv :=
+  match w.splitOn ":" with
+  | ["W.write", a, _] => a.toNat?.map .write
+  | ["W.proc", a, b] => match a.toNat?, b.toNat? with | some a, some b => some (.proc a b) | _, _ => none
+  | ["W.did", a, b] => match a.toNat?, b.toNat? with | some a, some b => some (.did a b) | _, _ => none
+  | ["W.drain", a, _] => a.toNat?.map .drain
+  | ["W.flush", a, _] => some (.flush (a == "1"))
+  | ["W.fin", a, _] => a.toNat?.map .fin
+  | ["W.findone", a, _] => a.toNat?.map .findone
+  | _ => none
+
+def parseREv (w : String) : Option PV.Compress.REv :=
+  match w.splitOn ":" with
+  | ["R.read", a, _] => a.toNat?.map .read
+  | ["R.input", a, _] => a.toNat?.map .input
+  | ["R.proc", a, b] => match a.toNat?, b.toNat? with | some a, some b => some (.proc a b) | _, _ => none
+  | ["R.ok", a, b] => match a.toNat?, b.toNat? with | some a, some b => some (.ok a b) | _, _ => none
+  | ["R.end", a, b] => match a.toNat?, b.toNat? with | some a, some b => some (.end_ a b) | _, _ => none
+  | ["R.ret", a, _] => a.toNat?.map .ret
+  | _ => none
+
+/-- z.waccept <bufSize> <kMin> <trace ';' separated>   /   z.raccept <already> <trace> -/
+def zU (op : String) (args : List String) : String :=
+  match op, args with
+  | "waccept", [b, k, tr] =>
+    match b.toNat?, k.toNat?, ((tr.splitOn ";").filter (· ≠ "") |>.filter (· ≠ "-")).mapM parseWEv with
+    | some b, some k, some evs =>
+      match PV.Compress.wFirstRejected (PV.Compress.winit b k) evs 0 with
+      | some i => s!"rejected-at {i}"
+      | none => match PV.Compress.wrun (PV.Compress.winit b k) evs with
+        | some s => s!"accepted {evs.length} file={s.file.length} produced={s.produced} given={s.given} consumed={s.consumed} members={s.members} idle={s.mode == .idle} dirty={s.dirty} inorder={s.file ++ s.buf == List.range s.produced}"
+        | none => "rejected"
+    | _, _, _ => "bad-op"
+  | "raccept", [a, tr] =>
+    match a.toNat?, ((tr.splitOn ";").filter (· ≠ "") |>.filter (· ≠ "-")).mapM parseREv with
+    | some a, some evs =>
+      -- a run may contain several readers (members / formats); each `R.read` after an `R.end` starts on the next one,
+      -- whose leftover input is unknown to the trace: restart the automaton there with the announced input
+      match PV.Compress.rFirstRejected (PV.Compress.rinit a) evs 0 with
+      | some i => s!"rejected-at {i}"
+      | none => match PV.Compress.rrun (PV.Compress.rinit a) evs with
+        | some s => s!"accepted {evs.length} delivered={s.delivered} fed={s.fed} steps={s.steps} progress={PV.Compress.progressOk evs} failed={s.mode == .failed}"
+        | none => "rejected"
+    | _, _ => "bad-op"
+  | _, _ => "bad-op"
+
 def dispatch (line : String) : String :=
   match words line with
   | [] => "bad-op"
@@ -517,6 +564,7 @@ def dispatch (line : String) : String :=
     | ["cache", op] => cacheU op args
     | ["wrapper", op] => wrapperU op args
     | ["queue", "accept"] => PV.QueueAccept.unit args
+    | ["z", op] => zU op args
     | ["flat", "spec", op] => flat ("spec." ++ op) args
     | ["tools", "spec", op] => tools ("spec." ++ op) args
     | ["murmur", "spec", op] => murmur ("spec." ++ op) args
